@@ -235,3 +235,31 @@ PROPS["C07"] = dict(
     ],
     uncovered=["DataSetReader / LazyDataSetReader token loops (how sanitize_length's result is used; defined-length item end detection)"],
 )
+
+# ----------------------------------------------------------------------- C25
+PROPS["C25"] = dict(
+    level="proof",
+    units=[
+        V("C25.write_chunk", "c25_write_chunk.vrs",
+          "write_chunk_u16 / write_chunk_u32 (every length-prefixed item and sub-item of every PDU goes through them): on "
+          "success the output is the big-endian length of the content followed by the content and the content fits the "
+          "length field; content that does not fit makes the call fail (never a truncated length)",
+          expected_verified=6, witness=dict(cmd=_W % "c25_chunk")),
+        V("C25.read_pdu_head", "c25_read_pdu_head.vrs",
+          "read_pdu framing head: any strict prefix of header + declared content reads as Ok(None); strict mode rejects "
+          "pdu_length > max_pdu_length; an invalid max_pdu_length is rejected; bytes::Buf accessors are never called beyond "
+          "the bytes available (no panic)",
+          expected_verified=6),
+    ],
+    assumptions=[
+        "the chunk builder closure is an abstract callee producing arbitrary content",
+        "std::io::Write::write_all and byteorder write_u16/u32::<BigEndian> append exactly those bytes",
+        "bytes::Buf accessors behave as documented (panic when fewer bytes remain: modelled as preconditions)",
+        "read_pdu is CUT after the framing head: the per-PDU-type decoding (~480 lines) is an abstract callee and is NOT verified",
+    ],
+    uncovered=[
+        "write_pdu -> read_pdu equality for each PDU type (Kani 0.68 hits an internal compiler error on anything reaching "
+        "dicom-ul's reader/writer: kani-compiler/src/intrinsics.rs:243; the functions are outside Verus' subset: bytes::Bytes, String, closures over &mut Vec)",
+        "independent PS3.8 parser of the written bytes", "AE titles longer than 16 bytes are silently truncated by resize(16)",
+    ],
+)
